@@ -140,6 +140,17 @@ define_language! {
     }
 }
 
+// operators with more argument positions than the parser's 8-bit payload mask (and than most inline capacities)
+define_language! {
+    pub enum Wide {
+        Wd(AppliedId, AppliedId, AppliedId, AppliedId, AppliedId, AppliedId, AppliedId, AppliedId, AppliedId, AppliedId) = "wd",
+        Wm(u32, Slot, AppliedId, AppliedId, AppliedId, AppliedId, AppliedId, AppliedId, AppliedId, Bind<AppliedId>) = "wm",
+        V(Slot) = "v",
+        C0() = "c0",
+        Num(u32),
+    }
+}
+
 #[derive(Clone, Copy, Debug, PartialEq, Eq, Hash, PartialOrd, Ord, Serialize, Deserialize)]
 pub enum LangId {
     Core,
@@ -153,6 +164,7 @@ pub enum LangId {
     Rise,
     Fp,
     Pay,
+    Wide,
 }
 
 pub const ALL_LANGS: &[LangId] = &[
@@ -167,6 +179,7 @@ pub const ALL_LANGS: &[LangId] = &[
     LangId::Rise,
     LangId::Fp,
     LangId::Pay,
+    LangId::Wide,
 ];
 
 impl LangId {
@@ -280,6 +293,16 @@ impl LangId {
                     op("pr", &[Field::PayOther(&["true", "false"]), Field::PayOther(&["7", "-3", "0", "123456789012"])]),
                 ],
             },
+            LangId::Wide => LangSig {
+                name: "Wide",
+                ops: vec![
+                    op("v", &[SlotF]),
+                    op("c0", &[]),
+                    op("", &[PayU32]),
+                    op("wd", &[Kid(0), Kid(0), Kid(0), Kid(0), Kid(0), Kid(0), Kid(0), Kid(0), Kid(0), Kid(0)]),
+                    op("wm", &[PayU32, SlotF, Kid(0), Kid(0), Kid(0), Kid(0), Kid(0), Kid(0), Kid(0), Kid(1)]),
+                ],
+            },
             LangId::Fp => LangSig {
                 name: "Fp",
                 ops: vec![
@@ -343,6 +366,10 @@ macro_rules! with_lang {
             }
             $crate::langs::LangId::Pay => {
                 type $L = $crate::langs::Pay;
+                $body
+            }
+            $crate::langs::LangId::Wide => {
+                type $L = $crate::langs::Wide;
                 $body
             }
         }
